@@ -170,3 +170,35 @@ Proof. exact encode_varint_len_is_model. Qed.
 Theorem c15_code_encode_varint_len_guard_holds : forall len out, (len < 2 ^ 32)%N ->
   Fns.encode_varint_len_guard len out = true.
 Proof. exact encode_varint_len_guard_u32. Qed.
+
+(* ------------------------------------------------------------------------------------------------
+   Tie to the code, wave 2 (see design.d/GEN.md): decode_varint_len, the little-endian unsigned integer keys
+   (instances of the le_value! / le_impl! macros of types.rs) and the classification byte of a TypeName. *)
+From RV Require Import Gen.Consts Gen.FnsLibB.
+
+Theorem c15_code_decode_varint_len_is_model : forall d, all_bytes d = true ->
+  KeyTypes.decode_varint_len d =
+  if Fns.decode_varint_len_guard d
+  then Some (fst (Fns.decode_varint_len d), slice_from d (snd (Fns.decode_varint_len d)))
+  else None.
+Proof. exact decode_varint_len_is_model. Qed.
+
+Theorem c15_code_le_uint_compare_is_model : forall w a b,
+  kcompare (TU w) a b = le_u64_compare a b /\ kcompare (TU w) a b = le_u32_compare a b
+  /\ kcompare (TU w) a b = le_u128_compare a b.
+Proof. exact le_uint_compare_is_model. Qed.
+
+Theorem c15_code_le_uint_from_bytes_is_model : forall d,
+  decode (TU 8) d = (if le_u64_from_bytes_guard d then Some (VU (le_u64_from_bytes d)) else None)
+  /\ decode (TU 4) d = (if le_u32_from_bytes_guard d then Some (VU (le_u32_from_bytes d)) else None)
+  /\ decode (TU 16) d = (if le_u128_from_bytes_guard d then Some (VU (le_u128_from_bytes d)) else None).
+Proof. exact le_uint_from_bytes_is_model. Qed.
+
+Theorem c15_code_type_classification_is_model :
+  TypeClassification_to_byte TypeClassification_Internal = TYPE_CLASS_INTERNAL
+  /\ TypeClassification_to_byte TypeClassification_UserDefined = TYPE_CLASS_USER
+  /\ TypeClassification_to_byte TypeClassification_Internal2 = TYPE_CLASS_INTERNAL2
+  /\ TypeClassification_to_byte TypeClassification_Internal3 = TYPE_CLASS_INTERNAL3
+  /\ (forall c, TypeClassification_from_byte (TypeClassification_to_byte c) = c
+              /\ TypeClassification_from_byte_guard (TypeClassification_to_byte c) = true).
+Proof. exact type_classification_is_model. Qed.
